@@ -108,6 +108,29 @@ theorem cli_exit_zero_iff (content : Bytes) :
     cases hs : safetyCheck i <;> cases hv : virtualSize i <;>
       simp [hs, hv, Except.isOk, Except.toBool]
 
+/-- the exit status is 0, 1 or 2, and 1 exactly for a detected image whose safety check **failed**
+    (SafetyCheckFailed) while its virtual size could be computed; anything unexpected is 2, never 0 -/
+theorem cli_exit_one_iff (content : Bytes) :
+    cliExit content ≤ 2 ∧
+    (cliExit content = 1 ↔ ∃ i r, detectFileFormat content = .ok i ∧ safetyCheck i = .failed r ∧
+                                   (virtualSize i).isOk = true) := by
+  unfold cliExit
+  cases hd : detectFileFormat content with
+  | error e => simp
+  | ok i =>
+    cases hs : safetyCheck i <;> cases hv : virtualSize i <;>
+      simp [hs, hv, Except.isOk, Except.toBool]
+
+/-- fail-closed at the command line: a detection error or a failing safety check never gives exit 0 -/
+theorem cli_exit_nonzero_of_failure (content : Bytes) :
+    (∀ e, detectFileFormat content = .error e → cliExit content = 2) ∧
+    (∀ i, detectFileFormat content = .ok i → safetyCheck i ≠ .ok → cliExit content ≠ 0) := by
+  refine ⟨fun e he => by simp [cliExit, he], fun i hi hs h0 => ?_⟩
+  obtain ⟨j, hj, hok, _⟩ := (cli_exit_zero_iff content).1 h0
+  rw [hi] at hj
+  cases hj
+  exact hs hok
+
 /-! non-vacuity -/
 example : ∃ s, Insp.init .qcow2 = some s := ⟨_, rfl⟩
 
